@@ -86,7 +86,24 @@ def run(ctx, model_ok):
                             "(C17), in-place edits of the arrays the getters hand out (obj.polarization[2] = x changes _polarization only), numpy's floating-point warnings (with ALL warnings escalated an "
                             "overflowing conversion raises between the two attribute writes: stream field observed_not_modelled). J in the observer frame: theorem over the pipeline model for ONE magnet and "
                             "right-handed sensors, local-frame J = indicator·polarization as hypothesis (discharged per class by *_j_is_indicator; stream level2-jm: Cuboids, observers off the faces)",
-                            "theorems stated at mu0R use 4*pi*1e-7, which is not the exported mu_0 (scipy's 1.25663706127e-6); the generic-mu theorems are the ones that matter"]
+                            "theorems stated at mu0R use 4*pi*1e-7, which is not the exported mu_0 (scipy's 1.25663706127e-6); the generic-mu theorems are the ones that matter",
+                            # --- added by audit2 (second audit of the statements) ---
+                            "excitation_sync is a theorem in EXACT arithmetic (carrier R): in IEEE double the pair is in sync only up to rounding — after `obj.polarization = v` the stored "
+                            "polarization differs from fl(magnetization * (4*pi*1e-7)) in the last bit for about 4 of 10 random vectors (relative 1.7e-16), and not at all after an overflowing / "
+                            "underflowing conversion; the `exc` stream ties the Float run of the model to the real attributes bit for bit, but no theorem bounds the rounding. "
+                            "misc.Triangle is a BaseMagnet too (same setters, no override) but is not among the classes the `exc` stream constructs. rejected_assignment_keeps_state / "
+                            "constructor_both_given_is_error restate branches of the model (`.bad` returns the old state): their content is the model, tied by the stream",
+                            "in_out: 'truthful' in tetra_inout_truthful / trimesh_inout_truthful means 'agrees with the code's OWN test' (tetraInside, resp. a free parameter `inside`), not with the geometric body; "
+                            "geometric versions: tetra_inout_truthful_hull (det != 0) and tetra_/trimesh_inout_override_j (under an override that is truthful w.r.t. ANY set, J = polarization on that set and 0 "
+                            "off it, M = J/mu0). For a TriangularMesh a geometrically truthful override DOES change the result where the ray-casting test is wrong (known finding): there the override is "
+                            "right and 'auto' is not. inout_ignored is `hasInOut cls = false`, where hasInOut answers false also for a class MISSING from the regenerated table (getD false): the six rows are "
+                            "pinned by inout_table_rows. Not modelled: the UserWarning getBH_level2 emits when in_out != 'auto' and no Tetrahedron / TriangularMesh is among the sources "
+                            "(the call raises under -W error)",
+                            "J in the observer frame: `body` is a free parameter of j_in_observer_frame(_end_to_end / _on_driver_carrier) and `s.F = indicatorField body pol` a hypothesis; 'inside the placed body' "
+                            "is the geometric set p + R·body. The hypothesis is discharged formally only for the Cuboid on integer data (boxBody_is_cuboid_mask: edge lengths in (0, 1e15], integer observers); "
+                            "the pipeline model has an abstract vector type, no theorem instantiates s.F with bhjmSphere / bhjmCylinder / bhjmTetra / the CylinderSegment or TriangularMesh wrappers. "
+                            "The level2-jm stream compares after rounding to integers (accepts |value - integer| <= 1e-6), with ODD edge lengths only, so whether a face belongs to the body is never exercised there; "
+                            "left-handed sensors, collections and several magnets occur in the stream but not in the theorem (they follow from C03 / C04 / C05, not composed here)"]
     ctx.assumptions += ["wrapper dispatch modelled by hand with the core as a parameter; cuboid masks, sphere, dipole, segment, triangle, tetrahedron, circle, cylinder ports tied by the kern stream"]
 
 
